@@ -127,6 +127,10 @@ func resolvePath(root, pth string) (string, error) {
 	if final != path.Clean(basename) {
 		return "", fmt.Errorf("path attempts to redirect through symlinks")
 	}
+	// The last component must not be a symlink either: creating a file there would follow it.
+	if fi, err := os.Lstat(joined); err == nil && fi.Mode()&os.ModeSymlink != 0 {
+		return "", fmt.Errorf("path attempts to redirect through symlinks")
+	}
 	return joined, nil
 }
 
